@@ -669,3 +669,27 @@ def alpha_keys(fn, subst=None):
             k = key(c)
             out.append(subst(k) if subst else k)
     return out
+
+
+def result_locals(fn, callees=None, field_suffix=None):
+    """ids of the locals that receive (a) the result of a call to one of `callees`, or (b) the value of a member whose name
+    ends with field_suffix: the variable is identified by what it holds, not by its spelling"""
+    ids = set()
+    for pos, root, x, ps in fn.nodes():
+        tgt = val = None
+        if x.get("k") == "bin" and x["op"] == "=" and strip_casts(x["x"]).get("k") == "ref" and strip_casts(x["x"]).get("dk") == "local":
+            tgt, val = strip_casts(x["x"]).get("id"), x["y"]
+            cands = [(tgt, val)]
+        elif x.get("k") == "decl":
+            cands = [(v.get("id"), v.get("init")) for v in x.get("vars", []) if v.get("init") is not None]
+        else:
+            continue
+        for t, v in cands:
+            v0 = strip_casts(v)
+            if v0 is None:
+                continue
+            if callees and v0.get("k") == "call" and v0.get("fn") in callees:
+                ids.add(t)
+            if field_suffix and v0.get("k") == "mem" and v0.get("f", "").endswith(field_suffix):
+                ids.add(t)
+    return ids
